@@ -36,7 +36,7 @@ GenCrossLeaf == Fam_cross
 GenCrossInit == {Empty, [l \in {"s.host"} |-> "s:abc"], [l \in {"s.hostname", "pl.n"} |-> IF l = "pl.n" THEN "u:1" ELSE "s:a"]}
 GenPresLeaf == Fam_pres
 GenPresInit == {Empty, [l \in {"pl.s"} |-> "s:b"]}
-GenNsLeaf == {"i1.name", "i1.val", "i1.xval", "s.ext", "s.xc.inner", "s.hostname", "pl.a", "s.tags"}
+GenNsLeaf == {"i1.name", "i1.val", "i1.xval", "s.ext", "s.xc.inner", "s.hostname", "pl.a", "s.tags", "s.xtags"}
 GenNsInit == {Empty, [l \in {"s.host"} |-> "s:abc"]}
 \* multi-key lists (keys declared non-alphabetically) next to a single-key list and a plain leaf
 GenMkeyLeaf == {"p1.zone", "p1.app", "p1.weight", "p2.zone", "p2.app", "p2.weight", "pl.a"}
